@@ -520,20 +520,46 @@ func (f *FS) Materialise(dir, root string) error {
 	if err := os.MkdirAll(root, 0700); err != nil {
 		return err
 	}
-	for p, b := range f.Files() {
+	var paths []string
+	for p := range f.names {
+		paths = append(paths, p)
+	}
+	sort.Strings(paths)
+	first := map[int]string{} // names of one inode stay hard links of one file
+	for _, p := range paths {
 		rel, err := filepath.Rel(dir, p)
-		if err != nil {
-			return err
+		if err != nil || strings.HasPrefix(rel, "..") {
+			continue
 		}
 		dst := filepath.Join(root, rel)
 		if err := os.MkdirAll(filepath.Dir(dst), 0700); err != nil {
 			return err
 		}
-		if err := os.WriteFile(dst, b, 0600); err != nil {
+		ino := f.names[p]
+		if prev, ok := first[ino]; ok {
+			if err := os.Link(prev, dst); err != nil {
+				return err
+			}
+			continue
+		}
+		if err := os.WriteFile(dst, f.inodes[ino], 0600); err != nil {
 			return err
 		}
+		first[ino] = dst
 	}
 	return nil
+}
+
+// Aliased reports whether some path shares its inode with another path.
+func (f *FS) Aliased() bool {
+	seen := map[int]bool{}
+	for _, ino := range f.names {
+		if seen[ino] {
+			return true
+		}
+		seen[ino] = true
+	}
+	return false
 }
 
 // EqualDir compares the tree with a real directory (self-check of the replayer).
